@@ -7,6 +7,7 @@ import (
 	"crypto/tls"
 	"crypto/x509"
 	"crypto/x509/pkix"
+	"github.com/emersion/go-sasl"
 	"io"
 	"math/big"
 	"net"
@@ -216,6 +217,39 @@ func (s sessU) Unauthenticate() error                     { return s.unauth() }
 func (s sessMU) Unauthenticate() error                    { return s.unauth() }
 func (s sessNU) Unauthenticate() error                    { return s.unauth() }
 func (s sessMNU) Unauthenticate() error                   { return s.unauth() }
+
+// SASL: a session with its own mechanisms (imapserver.SessionSASL): PLAIN and XTEST, both accepting any
+// response; AUTHENTICATE then goes through Authenticate (logged as such) instead of Login.
+type sessS struct{ *ScriptSession }
+type sessMNUS struct{ sessMNU }
+
+type acceptAll struct{}
+
+func (acceptAll) Next(response []byte) ([]byte, bool, error) {
+	if response == nil {
+		return nil, false, nil // no initial response: ask for one
+	}
+	return nil, true, nil
+}
+
+func (s *ScriptSession) saslAuth(mech string) (sasl.Server, error) {
+	if err := s.call("Authenticate", mech); err != nil {
+		return nil, err
+	}
+	return acceptAll{}, nil
+}
+func (s sessS) AuthenticateMechanisms() []string              { return []string{"PLAIN", "XTEST"} }
+func (s sessS) Authenticate(m string) (sasl.Server, error)    { return s.saslAuth(m) }
+func (s sessMNUS) AuthenticateMechanisms() []string           { return []string{"PLAIN", "XTEST"} }
+func (s sessMNUS) Authenticate(m string) (sasl.Server, error) { return s.saslAuth(m) }
+
+// WrapSASL is Wrap for a session that also implements SessionSASL (all optional interfaces or none).
+func (s *ScriptSession) WrapSASL(all bool) imapserver.Session {
+	if all {
+		return sessMNUS{sessMNU{s}}
+	}
+	return sessS{s}
+}
 
 // Wrap returns s as a Session implementing exactly the requested optional interfaces.
 func (s *ScriptSession) Wrap(move, namespace, unauth bool) imapserver.Session {
